@@ -854,6 +854,44 @@ func c03CallOptions(c *core.Ctx) {
 				}
 			}
 		})
+		if stores == 0 {
+			// the loop sits in a helper of the module that is handed the slice field and the value (storeAll(addrs, v))
+			for _, hc := range core.HelperCallsOf(m) {
+				for pi, a := range hc.Call.Call.Args {
+					_, f, isF := core.FieldOf(core.Strip(a))
+					if !isF || pi >= len(hc.Callee.Params) {
+						continue
+					}
+					par := hc.Callee.Params[pi]
+					hl := core.LoopOf(hc.Callee)
+					hs, hcnd := 0, 0
+					core.Instrs(hc.Callee, func(in ssa.Instruction) {
+						switch x := in.(type) {
+						case *ssa.Store:
+							if hl[x.Block()] >= 0 {
+								if u, ok := x.Addr.(*ssa.UnOp); ok {
+									if ia, ok := u.X.(*ssa.IndexAddr); ok && core.Strip(ia.X) == ssa.Value(par) {
+										// the value stored is the helper's own value parameter, which the method hands its own
+										if vp, isP := core.Strip(x.Val).(*ssa.Parameter); isP && vp.Parent() == hc.Callee {
+											if bound, has := hc.Bind[vp]; has && core.Strip(bound) == ssa.Value(m.Params[1]) {
+												hs++
+											}
+										}
+									}
+								}
+							}
+						case *ssa.If:
+							if hl[x.Block()] >= 0 {
+								hcnd++
+							}
+						}
+					})
+					if hs == 1 {
+						stores, conds, ranged = hs, hcnd, f
+					}
+				}
+			}
+		}
 		c.Check(stores == 1 && conds == 1 && ranged != "", key, m.Pos(), "ranges over the whole "+ranged+" slice with one unconditional store per element", fmt.Sprintf("fan-out is not 'for each element: *elem = value' (stores in loop: %d, conditions in loop: %d)", stores, conds))
 	}
 	// client paths: every function that reads headers/trailers of a received frame (or parses them from the reply) calls the fan-out
